@@ -124,6 +124,11 @@ def w1_bit_step(prog):
                     r.viol('W1', key + '/no-next-before-tail', fn.loc(tails[0]['ln']), 'tail call reached without consuming this component\'s identifier bit', tag=fn.name)
                 for t in tails:
                     pos = i - 1
+                    if t.get('delegate'):
+                        # another method: its parameter list is its own; the iterator must be among the arguments
+                        if not any(a[0] == 'it' and a[1] == i for a in t['args']):
+                            r.viol('W1', key + '/wrong-iterator', fn.loc(t['ln']), 'the walk this wrapper delegates to does not receive this step\'s identifier iterator', tag=fn.name)
+                        continue
                     if pos < len(t['args']):
                         a = t['args'][pos]
                         if not (a[0] == 'it' and a[1] == i):
